@@ -123,6 +123,14 @@ pub uninterp spec fn rt_builtin_type(c: Cid) -> Option<Type>;
 /// (receiver, method) pair (e.g. read-only queries to singleton actors); never assumed implicitly
 pub uninterp spec fn rt_no_reentry(to: Address, method: MethodNum) -> bool;
 
+/// the target of a send is this very actor (by its ID address or by an address that resolves to it): value sent to oneself comes back
+pub open spec fn rt_is_self(rt: Rt, to: Address) -> bool {
+    to == rt.msg.receiver || rt_resolve(to, rt.sends@.len()) == Some(rt.msg.receiver.id)
+}
+/// `a` never denotes this actor, whatever was sent in between
+pub open spec fn rt_never_self(rt: Rt, a: Address) -> bool {
+    a != rt.msg.receiver && forall|n: nat| rt_resolve(a, n) != Some(rt.msg.receiver.id)
+}
 /// everything of the runtime that a send never changes
 pub open spec fn rt_frame(o: &Rt, f: &Rt) -> bool {
     &&& f.msg == o.msg && f.caller_type == o.caller_type && f.caller_namespace == o.caller_namespace
@@ -314,7 +322,8 @@ impl Rt {
             (r.is_ok() && r->Ok_0.exit_code.value == 0) ==> 0 <= value@ <= old(self).balance@
                 && final(self).balance@ >= old(self).balance@ - value@,
             (r.is_ok() && r->Ok_0.exit_code.value == 0 && (method == METHOD_SEND || flags.bits % 2 == 1 || rt_no_reentry(*to, method))) ==>
-                final(self).balance@ == old(self).balance@ - value@ && final(self).state_id == old(self).state_id && final(self).state_root == old(self).state_root,
+                final(self).state_id == old(self).state_id && final(self).state_root == old(self).state_root
+                && final(self).balance@ == (if rt_is_self(*old(self), *to) { old(self).balance@ } else { old(self).balance@ - value@ }),
             // a failed send reverts everything the callee did
             !(r.is_ok() && r->Ok_0.exit_code.value == 0) ==> final(self).balance == old(self).balance
                 && final(self).state_id == old(self).state_id && final(self).events == old(self).events && final(self).state_root == old(self).state_root,
@@ -335,7 +344,8 @@ impl Rt {
             (r.is_ok() && r->Ok_0.exit_code.value == 0) ==> 0 <= value@ <= old(self).balance@
                 && final(self).balance@ >= old(self).balance@ - value@,
             (r.is_ok() && r->Ok_0.exit_code.value == 0 && (method == METHOD_SEND || rt_no_reentry(*to, method))) ==>
-                final(self).balance@ == old(self).balance@ - value@ && final(self).state_id == old(self).state_id && final(self).state_root == old(self).state_root,
+                final(self).state_id == old(self).state_id && final(self).state_root == old(self).state_root
+                && final(self).balance@ == (if rt_is_self(*old(self), *to) { old(self).balance@ } else { old(self).balance@ - value@ }),
             !(r.is_ok() && r->Ok_0.exit_code.value == 0) ==> final(self).balance == old(self).balance
                 && final(self).state_id == old(self).state_id && final(self).events == old(self).events && final(self).state_root == old(self).state_root,
     { unimplemented!() }
